@@ -4,6 +4,27 @@ import json, os
 VERIF = os.path.dirname(os.path.dirname(os.path.abspath(__file__)))
 
 CLAIMED = {
+    "C01": dict(
+        text=("Coq theorems over the model of reply(), in which every unwrap / expect / panic! / index / checked-arithmetic "
+              "site of the Rust data path is an explicit Panic branch: for every environment satisfying env_ok (re-decided "
+              "per run on the dumped tables and constants), every configuration whatsoever, every clock, every table "
+              "satisfying the invariant (a control block's parser state matches its protocol id; HTTP matcher state in "
+              "range) and every frame of at most 4096 octets, reply() returns Ok and re-establishes the invariant; by "
+              "induction every history of such frames runs to completion from the empty table. Termination and 'one reply "
+              "or silence' are the type of the total function. Per-responder ingredients: HTTP verb-matcher underflow "
+              "unreachable (table facts), SMB dissector invariants (9 sites), client-information fields set before use. "
+              "Tied to /repo by (a) ~230 000 frames per quick run on the overflow-checking AND the release build under all "
+              "logger x level combinations: every other property's stream plus a malformed stream (all truncations, "
+              "length-field lies, header-length sweeps, TLV faults, mutations), outcome kind compared with the model; "
+              "(b) an inventory of the 70 explicit panic sites reachable from reply() with their disposition, re-scanned "
+              "on every run."),
+        design="DESIGN.md section 5, C01",
+        note=("The theorem carries the hypothesis udp_replies_short (every datagram reply fits the 16-bit UDP length "
+              "field), whose discharge by the amplification bound for 4096-byte frames is in progress; the monitor checks "
+              "it on every executed case. Not exhibited by the model: memory exhaustion of the ever-growing table, stack, "
+              "closed stdout, a clock before 1970, panics inside dependencies on unmodelled paths. Ten panic defects found "
+              "this way were repaired in /repo (see known_findings.txt)."),
+        technique="Coq invariant + totality theorem over the Panic-explicit model + dev/release outcome correspondence + panic-site inventory"),
     "C02": dict(
         text=("Coq theorems over the model of reply(), for every configuration, connection table and frame: a frame whose "
               "destination MAC is not authorised (independent reading ref_auth, proved equal to the model's test for all "
